@@ -133,6 +133,22 @@ def check(tier, seed, replay=None):
             recs.append({"case": i, "kind": "eval", "ast": X.strip(EP.parse(txt, table)), "ctx": EL.ctx_of(inp), "res": val})
         else:
             recs.append({"case": i, "kind": "bag", "inp": enc(inp)["a"], "out": val if val.get("t") == "arr" else {"t": "arr", "a": []}})
+    # the text and csv printers have their own integer formatting: a boundary integer as a bare row, a selected column and a csv cell
+    if not replay:
+        tcases, texp = [], []
+        for n in (BOUNDARY if not quick else BOUNDARY[::2] + [2**64 - 1, 10**19, 10**19 - 1, -(2**63), 2**63]):
+            for argv, data, want in ((["--output-style=text"], "%d\n" % n, "%d\n" % n),
+                                     (["--output-style=text", "--select=.n =n", "--select=.m =m"], '{"n": %d, "m": [%d]}\n' % (n, n), "%d\t[%d]\n" % (n, n)),
+                                     (["--output-style=csv", "--select=.n =n"], '{"n": %d}\n' % n, '"n"\n%d\n' % n)):
+                tcases.append({"id": len(tcases), "argv": argv, "stdin": hexs(data.encode())})
+                texp.append(want.encode())
+        tobs = run_cases(jvh, tcases)
+        base = len(recs)
+        for i, c in enumerate(tcases):
+            recs.append({"case": base + i, "kind": "same", "vals": [list(bytes.fromhex(tobs[i]["out"])), list(texp[i])]})
+            items.append(("text", " ".join(c["argv"]), ("str", X.cps(bytes.fromhex(c["stdin"]).decode())), None))
+            obs[base + i] = tobs[i]
+        cases += tcases
     flags = []
     if recs:
         flags, res = run_trace_spec("Trace_Expr", recs, "c19", nproc=4 if quick else 14)
